@@ -48,8 +48,29 @@ theorem windowDescriptor_spec (w : Nat) (hw : w ≤ 2 ^ 41) :
       · have : 2 ^ (k + 1) ≤ 2 ^ 11 := Nat.pow_le_pow_right (by omega) (by omega)
         omega
 
-theorem declaredWindow_of (w e : Nat) (h : windowDescriptor w = .ok (e * 8)) : declaredWindow w = 2 ^ (10 + e) := by
+theorem frameDeclaresAtLeastMaxBlock_eq : Gen.frameDeclaresAtLeastMaxBlock = true := rfl
+
+/-- the header `compress` writes (repaired code): exponent `e`, and the declared window `2^(10+e)`
+covers the matcher's window AND the largest block (128 KiB) -/
+theorem headerDescriptor_spec (w : Nat) (hw : w ≤ 2 ^ 41) :
+    ∃ e : Nat, 1 ≤ e ∧ e ≤ 31 ∧ windowDescriptor (headerWindow w) = .ok (e * 8) ∧ w ≤ 2 ^ (10 + e) ∧
+      131072 ≤ 2 ^ (10 + e) := by
+  have hh : headerWindow w = max w 131072 := by
+    simp [headerWindow, frameDeclaresAtLeastMaxBlock_eq]; rfl
+  obtain ⟨e, h1, h2, h3, h4⟩ := windowDescriptor_spec (headerWindow w) (by rw [hh]; omega)
+  rw [hh] at h4
+  exact ⟨e, h1, h2, h3, by omega, by omega⟩
+
+theorem declaredWindow_of (w e : Nat) (h : windowDescriptor (headerWindow w) = .ok (e * 8)) : declaredWindow w = 2 ^ (10 + e) := by
   simp [declaredWindow, h]
+
+/-- the declared window is never below Block_Maximum_Size's cap: blocks are limited by 128 KiB only -/
+theorem declaredWindow_ge_block (w : Nat) (hw : w ≤ 2 ^ 41) : Gen.maxBlockSize ≤ declaredWindow w := by
+  obtain ⟨e, _, _, hwd, _, hb⟩ := headerDescriptor_spec w hw
+  rw [declaredWindow_of w e hwd]; exact hb
+
+theorem min_declared_block (w : Nat) (hw : w ≤ 2 ^ 41) : min (declaredWindow w) Gen.maxBlockSize = Gen.maxBlockSize :=
+  Nat.min_eq_right (declaredWindow_ge_block w hw)
 
 theorem magic_bytes : leBytes 4 Gen.magicNum = [40, 181, 47, 253] := by decide
 
